@@ -68,4 +68,15 @@ PROPS = {
         "not_modelled": "Display-based conversions into Text (integer, float, date, time, datetime, duration), Text->Bytes, Date<->DateTime, Enum, Union, Set, Array (oracle stream only)",
         "assumptions": ["Rust `as` casts are IEEE round-to-nearest-even / truncating-saturating"],
     },
+    "C06": {
+        "model_targets": ["QV/Corr/C06.vo"],
+        "oracle": "for every scalar function and aggregate of the implementation: if value(row) evaluates, super_image(type) must succeed and contain it (membership up to the canonical embedding); run in isolated child processes so that aborts and hangs are outcomes",
+        "trusted": [
+            "correspondence: harness/src/c06.rs (integer expression trees built through the Expr constructors) and QV/Corr/C06.v",
+            "oracle glue: typegen::embed / member (canonical embedding of values into types), the rule that `none` produced by the error-swallowing Optional wrapper is not an evaluation",
+            "modelled, not verified: PartitionnedMonotonic::{bivariate,piecewise_bivariate} super_image with the integer closures of plus/minus/multiply/least/greatest/gt/lt/gt_eq/lt_eq, SuperImageVisitor/ValueVisitor composition",
+        ],
+        "not_modelled": "float implementations (IEEE monotonicity), libm functions, text/date functions, casts, Pointwise/Aggregate/Case/InList/Coalesce combinators, Optional/Extended wrappers: oracle stream only",
+        "assumptions": ["row values and constants within i64"],
+    },
 }
